@@ -269,3 +269,7 @@ def replay(case):
     if op in fns:
         operands = {k: g(k) for k in ("a", "b", "e", "p") if k in case}
         _call(_C(), op, fns[op], "replay", None, operands)
+
+
+def install_for_suite():
+    mon_dsl.install_ops()
